@@ -65,6 +65,7 @@ type DriverState struct {
 	Errors    []string          `json:"errors"`
 	ErrCount  int               `json:"err_count"`
 	LastRspAt uint64            `json:"last_rsp_at"`
+	Halt      bool              `json:"halt"` // stop issuing new requests (responses are still processed)
 }
 
 // RspEvent is handed to an observer for each response.
@@ -224,7 +225,7 @@ func (m *driverMW) issue() bool {
 	d := m.d
 	st := &d.State
 	sp := d.Spec()
-	if st.Issued >= sp.NumReqs {
+	if st.Issued >= sp.NumReqs || st.Halt {
 		return false
 	}
 	if sp.IdlePct > 0 && int(d.intn(100)) < sp.IdlePct {
@@ -314,7 +315,9 @@ func (m *driverMW) issue() bool {
 			if masked {
 				mask = make([]bool, n)
 			}
+			req.Expect = make([]byte, n) // for a write: the bytes it replaces (needed while it is unacknowledged)
 			for i := uint64(0); i < n; i++ {
+				req.Expect[i] = st.Ref[refKey(pid, addr+i)]
 				data[i] = byte(d.next() >> 32)
 				if masked {
 					mask[i] = d.intn(3) != 0
